@@ -1,8 +1,8 @@
 SPECIFICATION Spec
 CONSTANTS Threads = {1,2,3}
-  N = 2
+  N = 3
   N2 = 2
   Rounds = 3
-  Variant = "None"
-INVARIANTS NoEarlyRelease CounterBelowN SleepersMatch
+  Variant = "SubReset"
+INVARIANTS NoEarlyRelease CounterBelowN
 CHECK_DEADLOCK FALSE
